@@ -26,7 +26,7 @@ pub enum Sym {
     TailX,
     Fin,
     Reset,
-    Run(u8, u32),
+    Run(u8, u64),
     /// whole canonical frame (reference checksum) of payload kind 0: empty, 1: `55`, 2: `0000`
     Frame(u8),
     /// well-checksummed frame `START 55555555 ESC 1a k crc` declaring k pad bytes that are not there
@@ -688,7 +688,7 @@ pub fn full_alphabet() -> Vec<Sym> {
 pub fn runs() -> Vec<Sym> {
     let mut v = vec![];
     for b in [0x55u8, 0x00, 0x1b, 0x01] {
-        for n in [254u32, 255, 256, 257, 65534, 65535, 65536, 65537] {
+        for n in [254u64, 255, 256, 257, 65534, 65535, 65536, 65537] {
             v.push(Sym::Run(b, n));
         }
     }
